@@ -8,6 +8,7 @@ import (
 	"context"
 	"encoding/json"
 	"fmt"
+	"github.com/olric-data/olric/config"
 	"math/rand"
 	"os"
 	"path/filepath"
@@ -175,6 +176,12 @@ func (w *world) ops(n int, phase string) {
 		if w.rng.Intn(10) < 7 {
 			w.vseq++
 			v := fmt.Sprintf("v%d-%040d", w.vseq, 0)
+			if T := w.c.Opts.TableSize; T > 0 && T <= 8192 && w.rng.Intn(6) == 0 {
+				// an entry among the 30 largest a storage table accepts (key + value + 29 bytes of metadata < table size)
+				if n := T - 29 - len(k) - 1 - w.rng.Intn(30); n > len(v) {
+					v += strings.Repeat("z", n-len(v))
+				}
+			}
 			var popts []olric.PutOption
 			if w.rng.Intn(3) == 0 {
 				popts = append(popts, olric.EX(time.Hour)) // an expiry far away: the value must survive every hand-over like any other
@@ -235,6 +242,32 @@ func (w *world) plantExpiring(phase string) ([]string, time.Time) {
 		w.w.Emit(trace.Ev{"t": "op", "op": "put", "k": k, "v": v, "ret": classify(err), "indeterminate": transport(err), "via": 0, "phase": phase})
 	}
 	return ks, time.Now().Add(410 * time.Millisecond)
+}
+
+// rescue overwrites some of the expiring keys with a plain Put and returns the keys that are left to expire.
+func (w *world) rescue(ks []string, phase string) []string {
+	ctx := context.Background()
+	live := w.c.Live()
+	var rest []string
+	for i, k := range ks {
+		if i%3 != 0 {
+			rest = append(rest, k)
+			continue
+		}
+		w.vseq++
+		v := fmt.Sprintf("r%d", w.vseq)
+		m := live[w.rng.Intn(len(live))]
+		err := guarded(func() error { return w.client(m).Put(ctx, k, v) })
+		w.w.Emit(trace.Ev{"t": "op", "op": "put", "k": k, "v": v, "ret": classify(err), "indeterminate": transport(err), "via": m.Index, "phase": phase,
+			"note": "overwrite of an expiring key before its table moved"})
+		if err == nil {
+			w.hadB[k] = len(live) >= w.R
+			w.sinceLeave[k] = true
+		} else {
+			rest = append(rest, k)
+		}
+	}
+	return rest
 }
 
 func (w *world) reapExpired(ks []string, deadline time.Time, phase string) {
@@ -467,11 +500,16 @@ func TestC03(t *testing.T) {
 				R := 1 + rng.Intn(2)
 				n0 := 1 + rng.Intn(3)
 				T := []int{512, 512, 0}[rng.Intn(3)]
-				c, err := cluster.Start(cluster.Options{Replicas: R, Partitions: 7, TableSize: T, Manual: s%4 != 3, Housekeeping: hk(T)}, n0) // every fourth scenario runs with the members' own push and balancer timers
+				c, err := cluster.Start(cluster.Options{Replicas: R, Partitions: 7, TableSize: T, Manual: s%4 != 3, Housekeeping: hk(T),
+					DMaps: func(d *config.DMaps) {
+						if s%3 == 1 {
+							d.MaxIdleDuration = time.Hour // idle eviction configured, with a window nothing ever reaches
+						}
+					}}, n0) // every fourth scenario runs with the members' own push and balancer timers
 				if err != nil {
 					panic(err)
 				}
-				label := fmt.Sprintf("R=%d start=%d T=%d manual=%v", R, n0, T, s%4 != 3)
+				label := fmt.Sprintf("R=%d start=%d T=%d manual=%v idle-window=%v", R, n0, T, s%4 != 3, s%3 == 1)
 				// every second scenario uses a DMap whose own name begins with the prefix that fragment names carry
 				dmName := []string{"reb", "dmap.reb"}[s%2]
 				label += " dmap=" + dmName
@@ -536,7 +574,10 @@ func TestC03(t *testing.T) {
 							ok = false
 							break
 						}
-						// the keys expire while the previous owner of their partition still holds them
+						// a third of the expiring keys is overwritten without expiry through the new routing table before the
+						// deadline: the old, expiring version stays on the previous owner of the partition
+						ttlKeys = w.rescue(ttlKeys, "after push, before any move")
+						// the others expire while the previous owner of their partition still holds them
 						w.reapExpired(ttlKeys, ttlDeadline, "after push, before any move")
 						if len(c.Live()) < 5 && rng.Intn(2) == 0 {
 							// a second join before anything was moved: partitions get two previous owners, the older of
@@ -721,7 +762,8 @@ func TestC02(t *testing.T) {
 					N = 3
 				}
 				rr := rng.Intn(2) == 0
-				c, err := cluster.Start(cluster.Options{Replicas: R, Partitions: 13, ReadRepair: rr, Manual: s%4 != 3}, N)
+				// every second scenario has small storage tables, and then some values as large as a table takes
+				c, err := cluster.Start(cluster.Options{Replicas: R, Partitions: 13, ReadRepair: rr, Manual: s%4 != 3, TableSize: []int{0, 4096}[s%2]}, N)
 				if err != nil {
 					panic(err)
 				}
